@@ -594,8 +594,15 @@ class Connection(ExportImport):
                     assert serial is not None  # See _uncommitted
                     self._modified.pop()  # not modified
                     continue
-                s = self._storage.storeBlob(oid, serial, p, blobfilename,
-                                            '', transaction)
+                try:
+                    s = self._storage.storeBlob(oid, serial, p, blobfilename,
+                                                '', transaction)
+                except BaseException:
+                    # The working copy was handed over to us; a storage
+                    # that failed before taking it must not leave it behind.
+                    if os.path.exists(blobfilename):
+                        os.remove(blobfilename)
+                    raise
                 # we invalidate the object here in order to ensure
                 # that that the next attribute access of its name
                 # unghostify it, which will cause its blob data
